@@ -7,6 +7,8 @@ import (
 	"regexp"
 	"sort"
 	"strings"
+
+	"golang.org/x/tools/go/ssa"
 )
 
 // ASMSIBLING: the legacy and the BMI2/ADX variant of an assembly macro perform the same steps.
@@ -223,6 +225,116 @@ func init() {
 			}
 			c.Clauses = append(c.Clauses, prop+".asmsibling: the legacy and the BMI2/ADX variant of every high-level amd64 assembly macro are the same sequence of lower-level macro invocations with the same arguments, up to the back-end suffix")
 			checkAsmSiblings(c, prop+".asmsibling", sc.pre, sc.floor)
+			if prop == "C14" {
+				if p := c.Prog("amd64"); p != nil {
+					checkAsmSelectors(c, p, "C14.dispatch", []string{"pke/kyber/internal/common", "sign/internal/dilithium"})
+				}
+			}
+		}
+	}
+}
+
+// checkAsmSelectors: the vector routines of one package are selected by one CPU test.
+//
+// The AVX2 back-ends of Kyber and Dilithium keep polynomials in a "tangled" coefficient order between the
+// assembly routines; every wrapper of the package therefore has to take the same arm on a given CPU. The
+// rule collects, for every call of a body-less (assembly) function whose name ends in AVX2, the CPU feature
+// test that controls it (looking through a helper that merely returns such a test) and requires all call
+// sites of the package to be controlled by the same one.
+func checkAsmSelectors(c *Ctx, p *Program, rule string, pkgs []string) {
+	for _, pkg := range pkgs {
+		type site struct{ fn, callee, cond, pos string }
+		var sites []site
+		var fs []*ssa.Function
+		for f := range p.AllFuncs {
+			if f.Blocks != nil && funcPkgPath(f) == circlPath+"/"+pkg && sourceFunc(f) {
+				fs = append(fs, f)
+			}
+		}
+		sort.Slice(fs, func(i, j int) bool { return fs[i].String() < fs[j].String() })
+		resolve := func(v ssa.Value) (string, bool) {
+			if featureCond(p, v, 0) {
+				return descVal(v), true
+			}
+			if cl, ok := v.(*ssa.Call); ok {
+				if cal := cl.Call.StaticCallee(); cal != nil && cal.Blocks != nil && isCirclFunc(cal) && len(cal.Params) == 0 {
+					var ds []string
+					okAll := true
+					for _, b := range cal.Blocks {
+						if ret, isRet := b.Instrs[len(b.Instrs)-1].(*ssa.Return); isRet && len(ret.Results) == 1 {
+							if featureCond(p, ret.Results[0], 0) {
+								ds = append(ds, descVal(ret.Results[0]))
+							} else {
+								okAll = false
+							}
+						}
+					}
+					if okAll && len(ds) == 1 {
+						return ds[0], true
+					}
+				}
+			}
+			return "", false
+		}
+		for _, f := range fs {
+			for _, b := range f.Blocks {
+				for _, in := range b.Instrs {
+					ci, ok := in.(ssa.CallInstruction)
+					if !ok {
+						continue
+					}
+					cal := ci.Common().StaticCallee()
+					if cal == nil || cal.Blocks != nil || !isCirclFunc(cal) || !strings.HasSuffix(cal.Name(), "AVX2") {
+						continue
+					}
+					cond := ""
+					for d := b; d.Idom() != nil && cond == ""; d = d.Idom() {
+						pd := d.Idom()
+						ifi, ok := pd.Instrs[len(pd.Instrs)-1].(*ssa.If)
+						if !ok || len(d.Preds) != 1 {
+							continue
+						}
+						if ds, ok := resolve(ifi.Cond); ok {
+							arm := ""
+							if pd.Succs[1] == d {
+								arm = "not "
+							}
+							cond = arm + ds
+						}
+					}
+					sites = append(sites, site{f.Name(), cal.Name(), cond, p.pos(in.Pos())})
+				}
+			}
+		}
+		what := pkg + ": every AVX2 routine is selected by the same CPU test"
+		if len(sites) < 5 {
+			c.ok(rule, what, fmt.Sprintf("not part of this build configuration (%d call sites of AVX2 routines)", len(sites)), "")
+			continue
+		}
+		count := map[string]int{}
+		for _, s := range sites {
+			count[s.cond]++
+		}
+		major, n := "", 0
+		for k, v := range count {
+			if v > n || (v == n && k < major) {
+				major, n = k, v
+			}
+		}
+		var bad []string
+		for _, s := range sites {
+			switch {
+			case s.cond == "":
+				bad = append(bad, fmt.Sprintf("%s calls %s at %s under no CPU feature test", s.fn, s.callee, s.pos))
+			case s.cond != major:
+				bad = append(bad, fmt.Sprintf("%s selects %s by %q at %s, the other %d sites by %q", s.fn, s.callee, s.cond, s.pos, n, major))
+			}
+		}
+		if len(bad) > 0 {
+			sort.Strings(bad)
+			c.bad(rule, what, strings.Join(bad, "; ")+": on a CPU where the two tests differ the wrappers mix the vector and the portable representation", "")
+		} else {
+			c.ok(rule, what, fmt.Sprintf("%d call sites, all under %q", len(sites), major), "")
 		}
 	}
 }
